@@ -4,6 +4,13 @@ from what the seed's own property check reported in the regression run (broken p
 import json, os, re, sys
 logdir = sys.argv[1]
 NOTES = {
+ "C02_H": "MISSED by C02 quick at first (no prior box had an edge on which a rescaled distance vanishes). Added the oracle scenario run_zero_edges (boxes with lower edges lambda_mst = 0 and gamma_ppn = -1, every lens type); it also found two genuine defects of the pinned tree on that edge (DSPL: ZeroDivisionError, DdtDdKDE: ValueError from the KDE), recorded as known findings keyed by lens type. ",
+ "C08_I": "MISSED by C08 quick at first (two cooperating sites: a callee returning its stored dictionary and a caller updating the result in place; Effects.v treats call results as fresh, the oracle never fixed EVERY cosmological parameter). Oracle now has a scenario in which nothing cosmological is sampled and tabulated distances are passed in some calls. ",
+ "C05_G": "At first only 'no-failing-input-found'. Oracle now passes kwargs_fixed_cosmo dictionaries carrying keys the declared model does not use. ",
+ "C05_H": "At first only 'no-failing-input-found'. Oracle now scans with ONE numpy vector updated in place between the calls. ",
+ "C03_G": "At first only 'no-failing-input-found' (the oracle built LensLikelihood directly with the scaling switches set). Oracle now also evaluates every lens as a sample of one, the population switches travelling through kwargs_global_model. ",
+ "C10_H": "At first only 'no-failing-input-found' (bounds were asked once per object). Oracle now asks param_bounds_interpol again after an evaluation. ",
+ "C20_H": "At first only 'no-failing-input-found' (every prior object was evaluated with one set of realised parameters). Oracle now evaluates one prior object / one lens several times with different realised-parameter sets. ",
  "C02_E": "MISSED by C02 quick at first (every oLCDM theorem and oracle case had at least one lens, so folding the dark-energy test into the per-lens loop changed nothing that was looked at). Added theorem C02_olcdm_guard_without_lenses and the oracle scenario run_nolens (SNe-only sample). ",
  "C02_F": "MISSED by C02 quick at first (the oracle's prior boxes were strictly inside the interpolation range, the anisotropy draw was not in C02's model). Added Edge.v / C02_mean_on_range_edge_accepted (inclusive range test, OM/const/GOM) and oracle configurations whose box IS the interpolation range. ",
  "C07_F": "MISSED by C07 quick at first ([{}]*n aliasing in LOSParam.args2kwargs: outside C07's model, and the oracle handed kwargs_los directly). Added the oracle stream run_los_populations (several sampled populations through CosmoLikelihood.likelihood: additivity and non-interference). Also caught by C01's PySem/CPython correspondence (value semantics vs aliasing). ",
